@@ -5,6 +5,7 @@ Nothing in here (or in any rule module) executes code from /repo: the only input
 the JSON fact file produced by the compiler driver in /verif/engine.
 """
 import json, os, sys, time, hashlib, subprocess, tempfile, shutil
+from . import hir as hir_mod
 
 VERIF = os.path.dirname(os.path.dirname(os.path.abspath(__file__)))
 REPO = os.environ.get("VERIF_REPO", "/repo")
@@ -25,6 +26,8 @@ class Facts:
         self.label = label
         self.inlined = data.get("inlined", {})
         self.inline_notes = data.get("inline_notes", [])
+        hir_mod.HELPER_HIR.clear()
+        hir_mod.HELPER_HIR.update(data.get("helper_hir", {}))
         self.fns = {}
         for f in data["fns"]:
             self.fns[f["path"]] = f
